@@ -71,17 +71,25 @@ def _validate_valid_identifiers(nodes: dict[str, HyperNode]) -> None:
     from hypergraph.nodes.graph_node import GraphNode
 
     for node in nodes.values():
-        # Skip GraphNode - it uses graph name validation (allows hyphens)
         if isinstance(node, GraphNode):
-            continue
-        if not node.name.isidentifier():
+            # GraphNode names follow graph name validation (allows hyphens), but a rename
+            # must not introduce the path separators either; outputs are checked below
+            reserved = sorted(c for c in "./" if c in node.name)
+            if reserved:
+                raise GraphConfigError(
+                    f"Invalid node name: '{node.name}'\n\n"
+                    f"  -> Nested graph node names cannot contain {reserved} (reserved as path separators)\n\n"
+                    f"How to fix:\n"
+                    f"  Use a name without '.' or '/'"
+                )
+        elif not node.name.isidentifier():
             raise GraphConfigError(
                 f"Invalid node name: '{node.name}'\n\n"
                 f"  -> Names must be valid Python identifiers\n\n"
                 f"How to fix:\n"
                 f"  Use letters, numbers, underscores only"
             )
-        if keyword.iskeyword(node.name):
+        elif keyword.iskeyword(node.name):
             raise GraphConfigError(
                 f"Invalid node name: '{node.name}'\n\n"
                 f"  -> '{node.name}' is a Python keyword and cannot be used\n\n"
